@@ -17,6 +17,17 @@
      S <hid> <idx> <what>                   the harness saw something the response format has no place for (`O svcbad <what>`:
                                             the handler returned an error / no message, or echoed another name)
    Histories without the V line are judged exactly as before.
+
+   "boot on a given state file" histories (a line `F <nsessions> <sid> <nlocks> <name> <key> <size> ...` after the C line:
+   harness/seqdiff wrote that map to the state file with the real store before the first boot, and the history's first event
+   is that boot, `restart`; Model/SeqFile.v): the R lines come from replay_history_from_any (Extract/SeqExtract.v: replay on
+   Mseq from file_state, for some order of the file's sessions at the first boot), for every projection asked for, and
+     W <hid> <idx>                          the probe at event idx fails views_failures (Model/SeqFile.v views_ok_b: listing =
+                                            holds of the lock table, = entries of the state file when it is on, no lock with
+                                            more keys than its size) — a statement about the REAL observations alone
+   The trace oracle (T lines) and the inertness check (I lines) are NOT run on such histories: the hold tracker of Track.v
+   follows holds from their grants and cannot judge holds that come out of a file. Histories without the F line are judged
+   exactly as before.
    usage: seqdriver --code-classes         prints `K <code name> <error values of that class ...>` and `K! tables-recognised 0|1` *)
 type ostring = string
 open Seqmodel
@@ -199,6 +210,7 @@ let () =
   let cur : (event * out list) option ref = ref None in   (* outs reversed *)
   let bad = ref None in
   let anomalies : (int * ostring) list ref = ref [] in     (* via service: `O svcbad ...` lines, reversed *)
+  let initf : (byte list * clock list) list option ref = ref None in   (* the `F` line: the state file of the first boot *)
   let flush_event () =
     (match !cur with Some (e, os) -> evs := (e, List.rev os) :: !evs | None -> ());
     cur := None in
@@ -212,25 +224,41 @@ let () =
          match List.assoc_opt pn projections with
          | None -> Printf.printf "B %s unknown-projection-%s\n" !hid pn
          | Some p ->
-           (match (if !svc then replay_history_svc p !cfg h else replay_history p !cfg h) with
+           (match (match !initf with
+                   | Some f -> replay_history_from_any p !cfg f h
+                   | None -> if !svc then replay_history_svc p !cfg h else replay_history p !cfg h) with
             | None -> Printf.printf "R %s %s ok\n" !hid pn
             | Some (i, outs) ->
                 Printf.printf "R %s %s mismatch %d\n" !hid pn (int_of_nat i);
                 if pn = "all" || List.length projs = 1 then
                   List.iteri (fun c os -> List.iter (fun o -> Printf.printf "M %s %d %d %s\n" !hid (int_of_nat i) c (tok_of_out o)) os;
                                           if os = [] then Printf.printf "M %s %d %d (no output)\n" !hid (int_of_nat i) c) outs)) projs;
-       List.iter (fun (i, t) -> Printf.printf "T %s %d %s\n" !hid (int_of_nat i) (ocaml_string t))
-         (if !svc then track_failures_svc_b !cfg h else track_failures_b !cfg h);
-       List.iter (fun (i, w) -> Printf.printf "S %s %d %s\n" !hid i w) (List.rev !anomalies);
-       List.iter (fun (i, t) -> Printf.printf "I %s %d %s\n" !hid (int_of_nat i) (ocaml_string t)) (inert_failures_b h));
-    evs := []; cur := None; bad := None; anomalies := []; svc := false in
+       (match !initf with
+        | Some _ ->
+          List.iter (fun i -> Printf.printf "W %s %d\n" !hid (int_of_nat i)) (views_failures !cfg.c_file O h)
+        | None ->
+          List.iter (fun (i, t) -> Printf.printf "T %s %d %s\n" !hid (int_of_nat i) (ocaml_string t))
+            (if !svc then track_failures_svc_b !cfg h else track_failures_b !cfg h);
+          List.iter (fun (i, w) -> Printf.printf "S %s %d %s\n" !hid i w) (List.rev !anomalies);
+          List.iter (fun (i, t) -> Printf.printf "I %s %d %s\n" !hid (int_of_nat i) (ocaml_string t)) (inert_failures_b h)));
+    evs := []; cur := None; bad := None; anomalies := []; svc := false; initf := None in
   (try
      while true do
        let line = input_line ic in
        match split_ws line with
        | [] -> ()
-       | "H" :: id :: _ -> hid := id; svc := false
-       | ["V"; "service"] -> svc := true
+       | "H" :: id :: _ -> hid := id; svc := false; initf := None
+       | ["V"; "service"] -> svc := true; if !initf <> None then bad := Some "init-file-history-via-service-is-not-supported"
+       | "F" :: n :: rest ->
+           (try
+              let rec go k toks acc =
+                if k = 0 then (if toks = [] then List.rev acc else raise (Bad "F: trailing tokens")) else
+                match toks with
+                | sid :: m :: rest -> let (cs, rest') = take_clocks (int_of_string m) rest [] in go (k - 1) rest' ((str_of_hex sid, cs) :: acc)
+                | _ -> raise (Bad "F") in
+              initf := Some (go (int_of_string n) rest []);
+              if !svc then bad := Some "init-file-history-via-service-is-not-supported"
+            with Bad m | Failure m -> bad := Some ("parse:" ^ String.map (fun c -> if c = ' ' then '_' else c) m))
        | "O" :: "svcbad" :: what when !svc ->
            anomalies := (List.length !evs, String.concat "_" (if what = [] then ["?"] else what)) :: !anomalies
        | ["C"; nc; f; gci; gcm; dlt] ->
